@@ -5,11 +5,12 @@ p='/verif/DESIGN.md'
 s=open(p).read()
 i=s.index("## 8. Showing that the checks can fail")
 j=s.index("## 9. Log of false alarms and corrections")
-def rows(pattern, r2):
+def rows(pattern, r2, r3=False):
     out=[]
-    for d in sorted(glob.glob('/verif/seeded/*')):
+    for d in sorted(x for x in glob.glob('/verif/seeded/*') if os.path.isdir(x)):
         k=os.path.basename(d)
-        if ('-r2-' in k)!=r2: continue
+        if ('-r3-' in k)!=r3: continue
+        if not r3 and ('-r2-' in k)!=r2: continue
         m=json.load(open(d+'/meta.json'))
         clause=''
         if m.get('violated_clauses'):
@@ -20,8 +21,8 @@ def rows(pattern, r2):
         if m.get('origin'): extra=' — '+m['origin']
         out.append('| %s | %s | %s%s |'%(k,m['property'],clause,extra))
     return out
-r1=rows('',False); r2=rows('',True)
-n1=len(r1); n2=len(r2)
+r1=rows('',False); r2=rows('',True); r3=rows('',False,True)
+n1=len(r1); n2=len(r2); n3=len(r3); m3=sum('missed at first' in r for r in r3)
 m1=sum('missed at first' in r for r in r1); m2=sum('missed at first' in r for r in r2)
 own=open('/verif/mutants/RESULTS.txt').read().strip().split('\n')
 ownrows=[]
@@ -70,6 +71,13 @@ stood; **%d were missed at first**. All are detected now, after the checks were 
 | seed | property | detected by (scenario / clause) |
 |---|---|---|
 '''%(n2,n2-m2,n2,m2)+'\n'.join(r2)+'''
+
+**Round 3** (%d changes, same brief as round 2, for the properties round 2 had not covered): %d
+detected as the checks stood, %d missed at first.
+
+| seed | property | detected by (scenario / clause) |
+|---|---|---|
+'''%(n3,n3-m3,m3)+'\n'.join(r3)+'''
 
 What changed in response, as a rule rather than case by case: every property whose code handles a
 length, a count or an index now has a *scale* scenario next to its small-scope product, in which
